@@ -482,6 +482,13 @@ def run(ck):
                'D4 Parity/Expr normal forms: zero()/is_zero and one()/is_one agree (recogniser evaluated on the constructor\'s literal and on a single variable), Expr::quadratic sorts, drops a constant-one factor and deduplicates, tuple fields private, both back ends multiply scalar factors on key collision',
                'D5 Measure and MeasureReset both attach the given parity or a fresh variable (counter incremented exactly when fresh) to their X effect')
     ck.not_decided('the merge loop of Parity + Parity (value-level)', 'instantiation semantics', 'circuits with measurements end to end', 'that adjoint conjugates parametrised scalar factors (outside the statement)')
+    # D0: the statement itself on the members of the small-diagram family (C04, qxlib/zxsem.py) that carry boolean variables: every checked rule, every assignment
+    ck.decided('D0 (evaluation, small scope) on every diagram of the small-diagram family that carries boolean variables, every checked rule of basic_rules leaves the denoted map unchanged under EVERY assignment of the variables '
+               '(a spider with parity b is evaluated at phase p + b*pi, a parametrised scalar factor is applied exactly when its expression is true), or returns false and leaves the diagram untouched')
+    from . import C04 as _c04
+    plan = [('one-core', 'vec_graph::Graph', 1), ('gadgets', 'vec_graph::Graph', 1), ('two-cores', 'vec_graph::Graph', 3), ('boundary', 'vec_graph::Graph', 1), ('one-core', 'hash_graph::Graph', 5), ('boundary', 'hash_graph::Graph', 5)] \
+        if ck.tier == 'thorough' else [('one-core', 'vec_graph::Graph', 17), ('gadgets', 'vec_graph::Graph', 17), ('two-cores', 'vec_graph::Graph', 151), ('boundary', 'vec_graph::Graph', 11), ('boundary', 'hash_graph::Graph', 61)]
+    _c04.ev_rules(ck, plan=plan, vars_only=True, rule_name='E3-rules-vars')
     # D1
     nt = 0
     for key in TRANSFER_FNS:
